@@ -706,11 +706,22 @@ func renderSort(pkg string, s *SortSpec) map[string]string {
 	fmt.Fprintf(&sb, "package %s\n\n", pkg)
 	needTime := false
 	for _, f := range s.Fields {
-		if strings.Contains(f.Type, "time.") {
+		if strings.Contains(strings.ReplaceAll(f.Type, "stdtime.", ""), "time.") {
 			needTime = true
 		}
 	}
-	if needTime {
+	needStd := false
+	for _, f := range s.Fields {
+		if strings.Contains(f.Type, "stdtime.") {
+			needStd = true
+		}
+	}
+	switch {
+	case needTime && needStd:
+		sb.WriteString("import (\n\t\"time\"\n\tstdtime \"time\"\n)\n\n")
+	case needStd:
+		sb.WriteString("import stdtime \"time\"\n\n")
+	case needTime:
 		sb.WriteString("import \"time\"\n\n")
 	}
 	fmt.Fprintf(&sb, "//go:generate gsort -types=%s\n\n", s.Type)
